@@ -77,50 +77,77 @@ type Term struct {
 	cv interface{}
 	// variable name (op == "var")
 	name string
-	key  string
 }
 
 func (t *Term) isConst() bool { return t.op == "const" }
 
 // termTable hash-conses terms for one path.
 type termTable struct {
-	byKey map[string]*Term
+	tTrue, tFalse *Term
+	nonNaN map[int]bool // float terms known not to be NaN
+	byKey map[termKey]*Term
 	next  int
 	vars  []*Term // declared variables in creation order
 	// uninterpreted functions used
 }
 
 func newTermTable() *termTable {
-	return &termTable{byKey: make(map[string]*Term)}
+	tt := &termTable{byKey: make(map[termKey]*Term), nonNaN: make(map[int]bool)}
+	tt.tTrue = tt.intern(&Term{op: "const", sort: SBool, cv: true})
+	tt.tFalse = tt.intern(&Term{op: "const", sort: SBool, cv: false})
+	return tt
+}
+
+type termKey struct {
+	op      string
+	sort    Sort
+	n       int
+	a, b, c int
+	s       string
+	u       uint64
 }
 
 func (tt *termTable) intern(t *Term) *Term {
-	var sb strings.Builder
-	sb.WriteString(t.op)
-	sb.WriteByte('|')
-	sb.WriteString(strconv.Itoa(int(t.sort)))
+	k := termKey{op: t.op, sort: t.sort, n: len(t.args)}
 	switch t.op {
 	case "const":
 		switch c := t.cv.(type) {
+		case bool:
+			if c {
+				k.u = 1
+			}
+		case uint64:
+			k.u = c
 		case float64:
-			fmt.Fprintf(&sb, "|f%x", math.Float64bits(c))
-		default:
-			fmt.Fprintf(&sb, "|%T%v", t.cv, t.cv)
+			k.u = math.Float64bits(c)
+		case string:
+			k.s = c
 		}
 	case "var":
-		sb.WriteByte('|')
-		sb.WriteString(t.name)
+		k.s = t.name
 	default:
-		for _, a := range t.args {
-			sb.WriteByte('|')
-			sb.WriteString(strconv.Itoa(a.id))
+		switch len(t.args) {
+		case 3:
+			k.c = t.args[2].id
+			fallthrough
+		case 2:
+			k.b = t.args[1].id
+			fallthrough
+		case 1:
+			k.a = t.args[0].id
+		case 0:
+		default:
+			var sb strings.Builder
+			for _, a := range t.args {
+				sb.WriteString(strconv.Itoa(a.id))
+				sb.WriteByte('|')
+			}
+			k.s = sb.String()
 		}
 	}
-	k := sb.String()
 	if e, ok := tt.byKey[k]; ok {
 		return e
 	}
-	t.key = k
 	t.id = tt.next
 	tt.next++
 	tt.byKey[k] = t
@@ -131,7 +158,10 @@ func (tt *termTable) intern(t *Term) *Term {
 }
 
 func (tt *termTable) Bool(b bool) *Term {
-	return tt.intern(&Term{op: "const", sort: SBool, cv: b})
+	if b {
+		return tt.tTrue
+	}
+	return tt.tFalse
 }
 func (tt *termTable) BV(s Sort, v uint64) *Term {
 	if n := s.bits(); n < 64 {
@@ -225,6 +255,9 @@ func (tt *termTable) Eq(a, b *Term) *Term {
 		if a.isConst() && b.isConst() {
 			return tt.Bool(a.cv.(float64) == b.cv.(float64))
 		}
+		if a == b && tt.nonNaN[a.id] {
+			return tt.Bool(true)
+		}
 		if a.id > b.id {
 			a, b = b, a
 		}
@@ -235,6 +268,12 @@ func (tt *termTable) Eq(a, b *Term) *Term {
 	}
 	if a.isConst() && b.isConst() {
 		return tt.Bool(a.cv == b.cv)
+	}
+	if a.op == "strlen64" && b.isConst() {
+		return tt.lenCmp("=", a.args[0], b.cv.(uint64))
+	}
+	if b.op == "strlen64" && a.isConst() {
+		return tt.lenCmp("=", b.args[0], a.cv.(uint64))
 	}
 	if a.sort == SBool {
 		if a.isConst() {
@@ -392,6 +431,31 @@ func (tt *termTable) BVCmp(op string, a, b *Term) *Term {
 			return tt.Bool(true)
 		}
 	}
+	// len(s) compared with a constant stays in integer arithmetic (no int2bv)
+	if a.op == "strlen64" && b.isConst() && signExtend(b.cv.(uint64), 64) >= 0 {
+		switch op {
+		case "bvslt", "bvult":
+			return tt.lenCmp("<", a.args[0], b.cv.(uint64))
+		case "bvsle", "bvule":
+			return tt.lenCmp("<=", a.args[0], b.cv.(uint64))
+		case "bvsgt", "bvugt":
+			return tt.lenCmp(">", a.args[0], b.cv.(uint64))
+		case "bvsge", "bvuge":
+			return tt.lenCmp(">=", a.args[0], b.cv.(uint64))
+		}
+	}
+	if b.op == "strlen64" && a.isConst() && signExtend(a.cv.(uint64), 64) >= 0 {
+		switch op {
+		case "bvslt", "bvult":
+			return tt.lenCmp(">", b.args[0], a.cv.(uint64))
+		case "bvsle", "bvule":
+			return tt.lenCmp(">=", b.args[0], a.cv.(uint64))
+		case "bvsgt", "bvugt":
+			return tt.lenCmp("<", b.args[0], a.cv.(uint64))
+		case "bvsge", "bvuge":
+			return tt.lenCmp("<=", b.args[0], a.cv.(uint64))
+		}
+	}
 	return tt.mk(op, SBool, a, b)
 }
 
@@ -495,10 +559,14 @@ func (tt *termTable) IntToF(a *Term, signed bool) *Term {
 		}
 		return tt.F64(float64(a.cv.(uint64)))
 	}
+	var r *Term
 	if signed {
-		return tt.mk("(_ to_fp 11 53) RNE", SF64, a)
+		r = tt.mk("(_ to_fp 11 53) RNE", SF64, a)
+	} else {
+		r = tt.mk("(_ to_fp_unsigned 11 53) RNE", SF64, a)
 	}
-	return tt.mk("(_ to_fp_unsigned 11 53) RNE", SF64, a)
+	tt.nonNaN[r.id] = true
+	return r
 }
 
 // FToInt: float64 -> signed bit-vector, truncating (RTZ). Out-of-range is unspecified (as in Go).
@@ -544,6 +612,19 @@ func (tt *termTable) StrLt(a, b *Term) *Term {
 		return tt.Bool(a.cv.(string) < b.cv.(string))
 	}
 	return tt.mk("str.<", SBool, a, b)
+}
+
+// lenCmp is (op (str.len s) n) in integer arithmetic.
+func (tt *termTable) lenCmp(op string, s *Term, n uint64) *Term {
+	if int64(n) < 0 {
+		switch op {
+		case "=", "<", "<=":
+			return tt.Bool(false)
+		default:
+			return tt.Bool(true)
+		}
+	}
+	return tt.intern(&Term{op: "lencmp:" + op + ":" + strconv.FormatUint(n, 10), sort: SBool, args: []*Term{s}})
 }
 
 // UF application (Bool result) e.g. isuuid
@@ -611,6 +692,10 @@ func bodySMT(t *Term) string {
 		return refSMT(t)
 	case "strlen64":
 		return "((_ int2bv 64) (str.len " + refSMT(t.args[0]) + "))"
+	}
+	if strings.HasPrefix(t.op, "lencmp:") {
+		parts := strings.SplitN(t.op, ":", 3)
+		return "(" + parts[1] + " (str.len " + refSMT(t.args[0]) + ") " + parts[2] + ")"
 	}
 	op := t.op
 	if strings.HasPrefix(op, "uf:") {
